@@ -169,14 +169,7 @@ class Rule(Expression):
                 gen.writeln(f"{pairs_var}.extend({children})")
                 gen.writeln(f"return {matched_var}")
             else:
-                # Tag child pairs with the last tag on the stack
                 tag_var = gen.new_temp("tag")
-                gen.writeln("if state.tag_stack:")
-                with gen.block():
-                    gen.writeln(f"{tag_var}: str | None = state.tag_stack.pop()")
-                gen.writeln("else:")
-                with gen.block():
-                    gen.writeln(f"{tag_var} = None")
 
                 if self.modifier & ATOMIC:  # TODO: COMMENT and WHITESPACE too?
                     gen.writeln(f"# Atomic rule: {self.name!r}")
@@ -191,6 +184,14 @@ class Rule(Expression):
 
                 gen.writeln(f"if {matched_var}:")
                 with gen.block():
+                    # Tag the pair with the last tag on the stack. A rule that
+                    # failed must leave the tag for the rule that matches.
+                    gen.writeln("if state.tag_stack:")
+                    with gen.block():
+                        gen.writeln(f"{tag_var}: str | None = state.tag_stack.pop()")
+                    gen.writeln("else:")
+                    with gen.block():
+                        gen.writeln(f"{tag_var} = None")
                     gen.writeln(f"{pairs_var}.append({pair})")
                 gen.writeln(f"return {matched_var}")
 
